@@ -6,22 +6,23 @@
 namespace sim {
 namespace {
 
-struct Grp { uint32_t offset, size; int type; bool enabled; std::vector<uint8_t> ram0, def, nvmModel; bool torn = false; bool ramUnknown = false; };
+struct Grp { uint32_t offset, size; int type; bool enabled; std::vector<uint8_t> ram0, def, nvmModel; bool torn = false; bool ramUnknown = false; bool absent = false; };
 
 struct ParaRun : NodeEnv {
     std::vector<Grp> g; int nSub = 1; size_t nvmSize = 0; std::vector<uint32_t> writesPerOp, readsPerOp; bool injected = false;
     int64_t fKind = -1, fK = -1, fShort = 0;   // injected fault: 0 write / 1 read, k-th call, short-length class
     ParaRun(const Plan &p, Cov &c, bool vb) : NodeEnv(p, c, vb) {}
     // sub-index -> group index (sub 1 with more than one sub-index is the umbrella and aliases the first group)
-    int grpOfSub(int sub) { if (nSub == 1) return sub == 1 ? 0 : -1; if (sub == 1) return 0; if (sub >= 2 && sub <= nSub) return sub - 2; return -1; }
-    std::vector<int> addressed(int sub) { std::vector<int> r; if (nSub > 1 && sub == 1) { for (size_t i = 0; i < g.size(); i++) r.push_back((int)i); } else { int x = grpOfSub(sub); if (x >= 0) r.push_back(x); } return r; }
+    int subgap = 0;   /* a sub-index of 1010h/1011h that is not implemented (legal gap): its group is unreachable */
+    int grpOfSub(int sub) { if (sub == subgap && subgap) return -1; if (nSub == 1) return sub == 1 ? 0 : -1; if (sub == 1) return 0; if (sub >= 2 && sub <= nSub) return sub - 2; return -1; }
+    std::vector<int> addressed(int sub) { std::vector<int> r; if (nSub > 1 && sub == 1) { for (size_t i = 0; i < g.size(); i++) if (!g[i].absent) r.push_back((int)i); } else { int x = grpOfSub(sub); if (x >= 0) r.push_back(x); } return r; }
     uint32_t shortLen(uint32_t size) { switch (fShort) { case 0: return 0; case 1: return size > 1 ? 1 : 0; case 2: return size / 2; default: return size - 1; } }
 
     void buildNode(bool first) {
         specs.clear(); add_mandatory(specs, 1);
         std::vector<ParaSpec> ps; for (auto &x : g) { ParaSpec s; s.offset = x.offset; s.size = x.size; s.type = x.type; s.value = x.enabled ? CO_PARA___E : 0; ps.push_back(s); }
         add_typed(specs, T_PARASTORE, 0x1010, 0, CO_OBJ_D___R_, (uint32_t)nSub); add_typed(specs, T_PARARESTORE, 0x1011, 0, CO_OBJ_D___R_, (uint32_t)nSub);
-        for (int s = 1; s <= nSub; s++) { int gi = grpOfSub(s); add_typed(specs, T_PARASTORE, 0x1010, (uint8_t)s, CO_OBJ_____RW, 0, gi); add_typed(specs, T_PARARESTORE, 0x1011, (uint8_t)s, CO_OBJ_____RW, 0, gi); }
+        for (int s = 1; s <= nSub; s++) { if (s == subgap) continue; int gi = grpOfSub(s); add_typed(specs, T_PARASTORE, 0x1010, (uint8_t)s, CO_OBJ_____RW, 0, gi); add_typed(specs, T_PARARESTORE, 0x1011, (uint8_t)s, CO_OBJ_____RW, 0, gi); }
         NodeCfg cfg; cfg.nodeId = 1; cfg.freq = 1000; cfg.tmrNum = 4;
         std::vector<uint8_t> keep = w.s[0].nvm; uint64_t wr = S().nvmWrites, rd = S().nvmReads; int64_t wf = S().nvmWriteFaultAt, rf = S().nvmReadFaultAt; uint32_t wsh = S().nvmWriteShort, rsh = S().nvmReadShort;
         w.build(0, cfg, specs, ps, {}, nvmSize);
@@ -38,6 +39,7 @@ struct ParaRun : NodeEnv {
         for (size_t i = 0; i < ng; i++) { Grp x; x.size = (uint32_t)plan.c("size" + std::to_string(i), 4); if (x.size < 1) x.size = 1; if (x.size > 64) x.size = 64; x.offset = off; off += x.size + (uint32_t)plan.c("gap" + std::to_string(i), 0); x.type = plan.c("type" + std::to_string(i), 0) ? CO_RESET_COM : CO_RESET_NODE; x.enabled = plan.c("en" + std::to_string(i), 1) != 0;
             x.ram0.resize(x.size); x.def.resize(x.size); x.nvmModel.resize(x.size); for (uint32_t b = 0; b < x.size; b++) { x.ram0[b] = (uint8_t)(0x10 * (i + 1) + b); x.def[b] = (uint8_t)(0xD0 + i + b * 3); x.nvmModel[b] = (uint8_t)(0xE0 ^ (b * 7 + i)); } g.push_back(x); }
         nvmSize = off + 8;
+        subgap = (int)plan.c("subgap", 0); if (nSub < 3 || subgap < 2 || subgap > nSub) subgap = 0; if (subgap) { g[(size_t)subgap - 2].absent = true; cov.hit("1010h-with-sub-index-gap"); }
         for (auto &o : plan.ops) if (o.k == "fault") { fKind = o.arg(0); fK = o.arg(1); fShort = o.arg(2); }
         buildNode(true);
         for (auto &x : g) memcpy(&w.s[0].nvm[x.offset], x.nvmModel.data(), x.size);     // initial NVM content (e.g. programmed at production)
@@ -64,7 +66,7 @@ struct ParaRun : NodeEnv {
         for (size_t i = mk; i < w.evs.size(); i++) { const Ev &e = w.evs[i]; if (e.kind == EV_NVMR && e.c != e.b) { shortRead = true; injected = true; cov.hit("F9-nvm-short-read"); for (size_t k = 0; k < g.size(); k++) if (g[k].offset == (uint32_t)e.a) hit.insert((int)k); } }
         if (shortRead) { if (err == CO_ERR_NONE) { fail("para/short-read-ignored", std::string("NVM short read during ") + what + " but the node reports no error"); return; } }
         for (size_t k = 0; k < g.size(); k++) {
-            bool reloaded = (g[k].type == CO_RESET_NODE && node) || (g[k].type == CO_RESET_COM && com); if (!reloaded) continue;
+            bool reloaded = !g[k].absent && ((g[k].type == CO_RESET_NODE && node) || (g[k].type == CO_RESET_COM && com)); if (!reloaded) continue;
             if (hit.count((int)k)) { g[k].ramUnknown = true; continue; }
             g[k].ramUnknown = false;
             if (g[k].torn) continue;     // NVM holds a torn image: accepted, content of the tail follows the prefix rule below
@@ -73,7 +75,7 @@ struct ParaRun : NodeEnv {
     }
     void checkRam(const char *what, bool node, bool com, const std::set<int> &hit, bool shortRead = false) {
         for (size_t k = 0; k < g.size() && v.ok; k++) {
-            bool reloaded = (g[k].type == CO_RESET_NODE && node) || (g[k].type == CO_RESET_COM && com); if (!reloaded || hit.count((int)k)) continue;
+            bool reloaded = !g[k].absent && ((g[k].type == CO_RESET_NODE && node) || (g[k].type == CO_RESET_COM && com)); if (!reloaded || hit.count((int)k)) continue;
             if (shortRead) cov.hit("short-read-other-groups-still-loaded");
             if (memcmp(S().paraRam[k], g[k].nvmModel.data(), g[k].size) != 0) { uint32_t b = 0; while (S().paraRam[k][b] == g[k].nvmModel[b]) b++; fail("para/reload", "group " + std::to_string(k) + " byte " + std::to_string(b) + " is " + hex(S().paraRam[k][b]) + " after " + what + ", last stored image has " + hex(g[k].nvmModel[b])); return; }
         }
@@ -93,11 +95,11 @@ struct ParaRun : NodeEnv {
             uint32_t ab = sdoWrite((uint16_t)(store ? 0x1010 : 0x1011), (uint8_t)sub, sig, 4);
             std::vector<Ev> nv, defs; for (size_t i = mk; i < w.evs.size(); i++) { if (w.evs[i].kind == EV_NVMW || w.evs[i].kind == EV_NVMR) nv.push_back(w.evs[i]); if (w.evs[i].kind == EV_PARADEFAULT) defs.push_back(w.evs[i]); }
             std::string ctx = std::string(store ? "store" : "restore") + " request to sub-index " + std::to_string(sub) + " with " + hex(sig) + " -> " + (ab ? "abort " + hex(ab) : "confirmed");
-            bool valid = sub >= 1 && sub <= nSub && sig == right;
+            bool valid = sub >= 1 && sub <= nSub && sub != subgap && sig == right;
             if (!valid) {
-                cov.hit(sub == 0 ? "request-sub0" : sub > nSub ? "request-absent-sub" : "request-wrong-signature");
+                cov.hit(sub == 0 ? "request-sub0" : (sub > nSub || sub == subgap) ? "request-absent-sub" : "request-wrong-signature");
                 if (ab == 0 || ab == 0xFFFFFFFFu) { fail("para/invalid-request-confirmed", ctx); return; }
-                if (sub > nSub && ab != 0x06090011) { fail("para/absent-sub-code", ctx); return; }
+                if ((sub > nSub || (subgap && sub == subgap)) && ab != 0x06090011) { fail("para/absent-sub-code", ctx); return; }
                 if (!nv.empty() || !defs.empty()) { fail("para/invalid-request-touched-driver", ctx + ": " + std::to_string(nv.size()) + " NVM calls, " + std::to_string(defs.size()) + " default callbacks"); return; }
                 for (size_t i = 0; i < g.size(); i++) if (ramOf(i) != ramBefore[i]) { fail("para/invalid-request-touched-ram", ctx); return; }
                 if (S().nvm != nvmBefore) { fail("para/invalid-request-touched-nvm", ctx); return; }
@@ -147,6 +149,7 @@ struct ParaRun : NodeEnv {
 Plan gen_para(Rng &r, bool thorough) {
     Plan p; int nsub = (int)r.pick<int64_t>({1, 1, 2, 3, 4, 5}); p.cfg["nsub"] = nsub; p.cfg["base"] = r.pick<int64_t>({0, 0, 3, 16}); size_t ng = nsub == 1 ? 1 : (size_t)nsub - 1;
     for (size_t i = 0; i < ng; i++) { p.cfg["size" + std::to_string(i)] = r.chance(1, 2) ? r.range(1, 8) : r.range(1, 64); p.cfg["gap" + std::to_string(i)] = r.below(3); p.cfg["type" + std::to_string(i)] = r.below(2); p.cfg["en" + std::to_string(i)] = r.chance(5, 6); }
+    if (nsub >= 3 && r.chance(1, 4)) p.cfg["subgap"] = r.range(2, nsub);   // a sub-index that is not implemented
     int n = (int)r.range(2, thorough ? 16 : 10);
     for (int i = 0; i < n; i++) {
         int c = (int)r.below(20);
